@@ -164,7 +164,11 @@ def e2e(case):
         wd = int(round(wd)) % 360
     L = float(rng.choice([-1, 1]) * 10 ** rng.uniform(1.5, 4))
     forcing = "ustar" if closure == "OAAHOC" else str(rng.choice(["ustar", "z0"]))
-    met = {"wind_speed": ws, "wind_dir": wd, "mol": L}
+    # directions as unwrapped series and -180..180 loggers give them: a full turn more or less is the same wind
+    wd_given = wd
+    if case["idx"] % 4 == 1 and not int_typed:
+        wd_given = float(wd + 360.0 * int(rng.choice([-1, 1, 2])))
+    met = {"wind_speed": ws, "wind_dir": wd_given, "mol": L}
     if forcing == "ustar":
         met["ustar"] = float(ws * rng.uniform(0.09, 0.15))
     else:
@@ -187,7 +191,7 @@ def e2e(case):
         raw["domain"]["output_levels"] = out_levels
     elif lev_kind == "full_output":
         raw["domain"]["full_output"] = True
-    desc = dict(wind_dir=wd, closure=closure, zm=zm, nx=nx, ny=ny, dx=dx, dy=dy, ws=ws, L=L, forcing=forcing, halo=halo, nz=nz,
+    desc = dict(wind_dir=wd, wind_dir_as_given=wd_given, closure=closure, zm=zm, nx=nx, ny=ny, dx=dx, dy=dy, ws=ws, L=L, forcing=forcing, halo=halo, nz=nz,
                 ref=(ref_lat, ref_lon), precision=raw["solver"]["precision"], levels=out_levels or lev_kind)
     if case["idx"] % 5 == 2:
         # the window was first laid out around another origin (a kilometre or so away) and then moved, the documented way:
